@@ -50,6 +50,9 @@ where
         to: usize,
     ) -> Self {
         let reader = region.create_reader();
+        // After a rolled-back truncation the stored length exceeds what the region holds
+        // until the next write(); only elements physically in the region are addressable.
+        let stored_len = stored_len.min(reader.len().saturating_sub(HEADER_OFFSET) / Self::SIZE_OF_T);
         let from = from.min(stored_len);
         let to = to.min(stored_len);
         let slice = reader.prefixed(HEADER_OFFSET);
